@@ -5,7 +5,7 @@ from . import decls as D
 
 I64 = (1 << 63) - 1
 
-CORPUS_VERSION = 9
+CORPUS_VERSION = 12
 
 AS = ['match', 'table', None, 'auto']  # None = parameter omitted (auto); 'auto' = written explicitly
 IT_G = ['range', 'next_and_back', 'table', 'table_inline', None, 'auto']
@@ -199,7 +199,7 @@ def build(tier, seed):
                         if fpv is not None:
                             p['vis'] = fpv
                         if named:
-                            p['name'] = ('my_' + f.lower() + ('_ß' if f in ('next', 'as_str', 'iter') else '')) if f not in ('MIN', 'MAX') else 'MY_' + f
+                            p['name'] = ('my_' + f.lower() + ('_ß' if f in ('next', 'as_str', 'iter') else '')) if f not in ('MIN', 'MAX') else {'MIN': 'My_Min', 'MAX': 'my_max'}[f]
                         if named and f in D.HAS_STRUCT_NAME:
                             p['struct_name'] = 'My' + f.capitalize() + 'Struct'
                         params[f] = p
@@ -240,8 +240,6 @@ def build(tier, seed):
             d['enum_name'] = en
             gap = d['gapless']
             cfgsn = [(None, None, None, None), ('table', 'match', 'table', 'table'), ('match', 'table', 'match', 'next_and_back')] + ([('table', 'table', 'table', 'range')] if gap else [('table', 'table', 'table', 'table_inline')])
-            if tier == 'quick' and en not in ('Iterator', 'Option', 'Result', 'FromStr', 'TryFrom'):
-                cfgsn = cfgsn[:1] + cfgsn[3:]
             for (a, f, t, it) in cfgsn:
                 add(d, D.full_config(a, f, t, it, True, split=1), kind='enumname', classes=['enum=' + en])
     # iterator structs named (through struct_name) like items the constructors use from core
@@ -255,6 +253,50 @@ def build(tier, seed):
                 feats = ['iter', 'names'] + (['range'] if it != 'table_inline' else [])
                 add(d, D.config(feats, {'iter': it}, {'iter': {'struct_name': sn}, 'names': {'struct_name': sn + 'N'}}), kind='structname', classes=['struct=' + sn, 'iter=' + str(it)])
             add(d, D.config(['names', 'as_str'], {}, {'names': {'struct_name': sn}}), kind='structname', classes=['struct=' + sn, 'names'])
+    # twins: enums expanded one after the other by the same compiler process whose token streams differ in exactly one place
+    # (values / names / repr / visibility / one parameter) - whatever the generator remembers between expansions shows here
+    tw = [0]
+    def twins(members):
+        tw[0] += 1
+        for d, c in members:
+            n0 = len(insts)
+            add(d, c, kind='twins', classes=['group=%d' % tw[0]])
+            for x in insts[n0:]:
+                x['group'] = 'T%d' % tw[0]
+    for cfgk in ((None, None, None, None), ('table', 'table', 'table', 'next_and_back'), ('match', 'match', 'match', 'table')):
+        mkc = lambda: D.full_config(*cfgk, True, split=1)
+        base = D.make_decl('i16', 'twin', [0, 1, 9], 'asc', 'explicit', 'default', rnd, vis='pub')
+        def variant_of(vals=None, renames=None, repr_=None, vis=None, order=None):
+            d = dict(base)
+            vs = [dict(v) for v in base['variants']]
+            if vals:
+                for v, nv in zip(vs, vals):
+                    v['value'] = nv; v['lit'] = str(nv)
+            if renames:
+                for v, rn in zip(vs, renames):
+                    v['rename'] = rn
+            if order:
+                vs = [vs[i] for i in order]
+            d['variants'] = vs
+            if repr_:
+                d['repr'] = repr_
+            if vis is not None:
+                d['vis'] = vis
+            allv = sorted(v['value'] for v in vs)
+            d['gapless'] = len(D.runs_of(allv)) == 1
+            d['label'] = 'twin'
+            return d
+        twins([(variant_of(), mkc()), (variant_of(vals=[5, 6, 7]), mkc()), (variant_of(vals=[9, 1, 0]), mkc()), (variant_of(vals=[-3, 20, 21]), mkc()), (variant_of(), mkc())])
+        twins([(variant_of(renames=['x', None, None]), mkc()), (variant_of(renames=['y', None, None]), mkc()), (variant_of(renames=[None, 'x', None]), mkc()), (variant_of(renames=['C', 'B', 'A']), mkc())])
+        twins([(variant_of(repr_='i16'), mkc()), (variant_of(repr_='u8'), mkc()), (variant_of(repr_='u64'), mkc()), (variant_of(repr_='isize'), mkc()), (variant_of(repr_='i8'), mkc())])
+        twins([(variant_of(vis='pub'), mkc()), (variant_of(vis=''), mkc()), (variant_of(vis='pub(crate)'), mkc()), (variant_of(vis='pub'), mkc())])
+        twins([(variant_of(), mkc()), (variant_of(order=[2, 0, 1]), mkc()), (variant_of(order=[1, 2, 0]), mkc())])
+    # the same declaration under configurations that differ in one parameter / one mode / one feature
+    base = D.make_decl('u8', 'twin', [0, 1, 2, 9], 'asc', 'explicit', 'default', rnd, vis='pub')
+    twins([(base, D.config(D.ALL_FEATURES, {'as_str': m, 'iter': 'table'})) for m in ('match', 'table', None)] +
+          [(base, D.config(D.ALL_FEATURES, {'iter': m})) for m in ('table', 'next_and_back', None)] +
+          [(base, D.config(D.ALL_FEATURES, {'iter': 'table'}, {'next': {'name': nm}})) for nm in ('succ', 'next', 'following')] +
+          [(base, D.config([f for f in D.ALL_FEATURES if f != drop], {'iter': 'table'})) for drop in ('MIN', 'names', 'Debug', 'next')])
     # ---- families for the metamorphic properties (C18, C10 split): members differ in exactly one dimension
     fam = [0]
     def family(kind, members):
@@ -288,6 +330,24 @@ def build(tier, seed):
                     d = dict(base); d['variants'] = [base['variants'][i] for i in perm]; d['order'] = 'perm%d' % oi
                     members.append(('order=%s' % (list(perm) if n <= 6 else oi), d, mk(d['gapless'])))
             family('perm', members)
+        # the same value -> name map declared with implicit discriminants: runs in every order, the first of a run explicit, the rest
+        # implicit, next to the fully explicit declaration (the map, not the spelling, decides the expansion)
+        rs = D.runs_of(vals)
+        if 2 <= len(rs) <= 4:
+            for cname, mk in cfgs[:2]:
+                base = D.make_decl(r, label, vals, 'asc', 'explicit', 'default', rnd)
+                byv = {v['value']: v for v in base['variants']}
+                members = [('explicit', base, mk(base['gapless']))]
+                for oi, perm in enumerate(_it.permutations(range(len(rs)))):
+                    vs = []
+                    for ri in perm:
+                        b, e = rs[ri]
+                        for v in range(b, e + 1):
+                            x = dict(byv[v]); x['lit'] = str(v) if v == b else None
+                            vs.append(x)
+                    d = dict(base); d['variants'] = vs; d['order'] = 'runperm%d' % oi; d['spelling'] = 'mixed'
+                    members.append(('runs=%s implicit' % list(perm), d, mk(d['gapless'])))
+                family('perm', members)
     # repr families: every repr that can hold the values (pointer-sized reprs are compared against the 64-bit member of their signedness)
     for label, vals in [('holes_neg_later', [-10, -9, -5, -4, 3]), ('gapless0', [0, 1, 2, 3]), ('holes_mixed', [1, 2, 3, 4, 10, 20, 21, 30, 31, 32, 33, 34, 35]),
                         ('gapless_130', list(range(-100, 30)) ), ('gapless_pos200', list(range(0, 200))),
@@ -371,8 +431,15 @@ def write_workspace(root, insts, repo='/repo', shards=16, crate_prefix='s', host
     # balance by size
     order = sorted(range(len(insts)), key=lambda i: -insts[i]['decl']['n'])
     load = [0] * shards
+    group_shard = {}
     for i in order:
-        j = load.index(min(load))
+        g = insts[i].get('group')
+        if g is not None and g in group_shard:
+            j = group_shard[g]           # members of a group are expanded by the same compiler process, one after the other
+        else:
+            j = load.index(min(load))
+            if g is not None:
+                group_shard[g] = j
         per[j].append(i)
         load[j] += 20 + insts[i]['decl']['n']
     for j in range(shards):
